@@ -4,6 +4,7 @@ def b_create_interval_node_float : CR.SrcW.Builder where
   kind := .list
   tag := ""
   xsd := "decimalExactOrInterval"
+  path := []
   parent := ""
   attrs := []
   gattrs := []
@@ -18,7 +19,8 @@ def b_create_interval_node_float_intervalEnd : CR.SrcW.Builder where
   key := "create_interval_node_float/intervalEnd"
   kind := .node
   tag := "intervalEnd"
-  xsd := ""
+  xsd := "decimalExactOrInterval"
+  path := ["intervalEnd"]
   parent := "create_interval_node_float"
   attrs := []
   gattrs := []
@@ -31,7 +33,8 @@ def b_create_interval_node_float_intervalStart : CR.SrcW.Builder where
   key := "create_interval_node_float/intervalStart"
   kind := .node
   tag := "intervalStart"
-  xsd := ""
+  xsd := "decimalExactOrInterval"
+  path := ["intervalStart"]
   parent := "create_interval_node_float"
   attrs := []
   gattrs := []
